@@ -867,6 +867,79 @@ fn needs_space(a: &Tok, b: &Tok) -> bool {
 }
 
 /// Renders tokens with randomised whitespace and (non-doc) comments; never lets two tokens fuse.
+/// Reference scanner for nested block comments (`/*` opens, `*/` closes, left to right, a
+/// delimiter consumes both of its characters). Returns the nesting depth after every complete
+/// delimiter, or `None` if the text does not start with `/*`.
+pub fn comment_depths(s: &str) -> Option<Vec<(usize, usize)>> {
+    let b = s.as_bytes();
+    if !s.starts_with("/*") {
+        return None;
+    }
+    let (mut i, mut depth, mut out) = (0usize, 0usize, Vec::new());
+    while i < b.len() {
+        if i + 1 < b.len() && b[i] == b'/' && b[i + 1] == b'*' {
+            depth += 1;
+            i += 2;
+            out.push((i, depth));
+        } else if i + 1 < b.len() && b[i] == b'*' && b[i + 1] == b'/' {
+            if depth == 0 {
+                return None;
+            }
+            depth -= 1;
+            i += 2;
+            out.push((i, depth));
+        } else {
+            i += 1;
+        }
+    }
+    Some(out)
+}
+
+/// Is `s` exactly one complete (possibly nested) block comment?
+pub fn is_one_block_comment(s: &str) -> bool {
+    match comment_depths(s) {
+        Some(d) => d.last().map_or(false, |(end, depth)| *depth == 0 && *end == s.len()) && d.iter().filter(|(_, depth)| *depth == 0).count() == 1,
+        None => false,
+    }
+}
+
+/// A block comment built from pieces chosen to put `/`, `*` and delimiters next to each other
+/// (`/*/`, `**/`, `/**`, nested comments); validated by the reference scanner.
+pub fn gen_block_comment(rng: &mut Rng, depth: usize) -> String {
+    const PIECES: &[&str] = &["a", " ", "/", "*", "/ ", " *", "x/", "*y", "//", "**", " ; } { ", "\n", "\"q"];
+    for _ in 0..20 {
+        let mut c = String::from("/*");
+        for _ in 0..rng.range(0, 5) {
+            if depth < 2 && rng.chance(1, 4) {
+                c.push_str(&gen_block_comment(rng, depth + 1));
+            } else {
+                c.push_str(*rng.pick(PIECES));
+            }
+        }
+        c.push_str("*/");
+        // `/**` would be a doc comment (except the empty comment `/**/`)
+        if is_one_block_comment(&c) && (!c.starts_with("/**") || c == "/**/") {
+            return c;
+        }
+    }
+    "/* c */".to_string()
+}
+
+/// A block comment that is not terminated at the end of the text (reference scanner: the depth
+/// never returns to zero).
+pub fn gen_unterminated_comment(rng: &mut Rng) -> String {
+    for _ in 0..20 {
+        let c = gen_block_comment(rng, 0);
+        let cut = &c[..c.len() - 2];
+        if let Some(d) = comment_depths(cut) {
+            if d.iter().all(|(_, depth)| *depth > 0) && !cut.ends_with('*') && !cut.ends_with('/') {
+                return cut.to_string();
+            }
+        }
+    }
+    "/* unterminated".to_string()
+}
+
 pub fn layout(rng: &mut Rng, toks: &[Tok], fancy: bool) -> String {
     let mut s = String::new();
     for (i, t) in toks.iter().enumerate() {
@@ -882,12 +955,16 @@ pub fn layout(rng: &mut Rng, toks: &[Tok], fancy: bool) -> String {
                 }
             } else {
                 let choice = rng.below(14);
+                let generated;
                 let sep: &str = match choice {
                     0 | 1 | 2 | 3 => " ",
                     4 => "\n",
                     5 => "\t",
                     6 => "  \n  ",
-                    7 => " /* c */ ",
+                    7 => {
+                        generated = format!(" {} ", gen_block_comment(rng, 0));
+                        &generated
+                    }
                     8 => " // line comment ; } { \n",
                     9 => " /* outer /* nested */ still */ ",
                     10 => "\r\n",
